@@ -434,12 +434,35 @@ pub fn run(c: &mut Ctx) {
             ("range-key-y1-identity", "public_key/y1s/[0]", g1id.clone()),
             ("digit-signature-sigma1-identity", "digit_signatures/[1]/sigma1", g1id.clone()),
         ];
-        for (what, fpath, bytes) in crafted {
+        // digit signatures made of small-order points (outside the prime-order group): re-randomising such
+        // a signature can only give the identity or the same two points again
+        let mut p3a = vec![0u8; 48];
+        p3a[0] = 0x80;
+        let mut p3b = vec![0u8; 48];
+        p3b[0] = 0xa0;
+        let multi: Vec<(&str, Vec<(String, Vec<u8>)>)> = (0..3usize)
+            .map(|d| {
+                (
+                    ["digit-0-signature-of-order-3-points", "digit-1-signature-of-order-3-points", "digit-2-signature-of-order-3-points"][d],
+                    vec![(format!("digit_signatures/[{}]/sigma1", d), p3a.clone()), (format!("digit_signatures/[{}]/sigma2", d), p3b.clone())],
+                )
+            })
+            .collect();
+        let mut all: Vec<(String, Vec<(String, Vec<u8>)>)> = crafted.into_iter().map(|(w, f, b)| (w.to_string(), vec![(f.to_string(), b)])).collect();
+        all.extend(multi.into_iter().map(|(w, v)| (w.to_string(), v)));
+        for (what, edits) in all {
+            let what = what.as_str();
             c.eval();
             c.distinct(&format!("hostile-parameters/{}", what));
             let mut tr = t.clone();
-            if let Err(e) = tr.fset(fpath, &bytes) {
-                c.inconclusive(&e);
+            let mut bad = false;
+            for (fpath, bytes) in &edits {
+                if let Err(e) = tr.fset(fpath, bytes) {
+                    c.inconclusive(&e);
+                    bad = true;
+                }
+            }
+            if bad {
                 continue;
             }
             match dec::<RangeConstraintParameters>(&tr.bytes) {
